@@ -89,6 +89,25 @@ fn commit(p: &Params, x: &Integer, st: &mut u64) -> CL03Commitment {
     CL03Commitment { value: e, randomness: r }
 }
 
+/// The randomness of the commitment that is proved about. The scheme's own domain is [-2^s n + 1, 2^s n - 1]
+/// (s = 40); the CL03 flows use far shorter values. Classes: about |n| bits (half of the cases), tiny, negative,
+/// a fraction of 2^s n of either sign (the prover has to split r' = 2^T r into two shares that both stay inside
+/// the domain, and re-draws when one does not), and the two ends of the domain.
+fn commit_class(p: &Params, x: &Integer, class: u32, st: &mut u64) -> (CL03Commitment, &'static str) {
+    let top = (Integer::from(1) << L_SEC) * &p.n - 1u32;
+    let (r, tag): (Integer, &'static str) = match class % 16 {
+        8 => (Integer::from(splitmix(st) % 3), "tiny"),
+        9 => (-clmath::int_from_seed(st, 1000), "negative"),
+        10 | 11 => (Integer::from((top.clone() * Integer::from(1 + splitmix(st) % 15)) >> 4), "fraction-of-2^s*n"),
+        12 | 13 => (-Integer::from((top.clone() * Integer::from(1 + splitmix(st) % 15)) >> 4), "negative-fraction-of-2^s*n"),
+        14 => (top.clone(), "2^s*n-1"),
+        15 => (-top.clone(), "-(2^s*n-1)"),
+        _ => return (commit(p, x, st), "about-|n|-bits"),
+    };
+    let e = Integer::from(p.g.pow_mod_ref(x, &p.n).unwrap()) * Integer::from(p.h.pow_mod_ref(&r, &p.n).unwrap()) % &p.n;
+    (CL03Commitment { value: e, randomness: r }, tag)
+}
+
 const T_SEC: u32 = 128;
 const L_SEC: u32 = 40;
 
@@ -130,7 +149,8 @@ fn check_one(rep: &Report, ck: &str, c: &Case, params: &[Params]) -> CheckResult
     let (a, b) = interval(c, &mut st);
     let x = x_in(c, &a, &b, &mut st);
     let cj = |d: Value| json!({"case": c, "params": p.id, "a": a.to_string(), "b": b.to_string(), "x": x.to_string(), "detail": d});
-    let com = commit(p, &x, &mut st);
+    let (com, r_tag) = commit_class(p, &x, c.seed >> 3, &mut st);
+    rep.class(&format!("commitment-randomness:{}", r_tag));
     let ver = |pr: &Boudot2000RangeProof, g: &Integer, h: &Integer, n: &Integer, lo: &Integer, hi: &Integer| catch(|| pr.verify::<Sha256>(g, h, n, lo, hi)).unwrap_or(false);
 
     // ---- positive ---------------------------------------------------------------------------
@@ -140,7 +160,7 @@ fn check_one(rep: &Report, ck: &str, c: &Case, params: &[Params]) -> CheckResult
     };
     rep.eval(ck, 1);
     if !ver(&proof, &p.g, &p.h, &p.n, &a, &b) {
-        return rep.fail(ck, "honest-range-proof-rejected", format!("x class {} in an interval of width class {} ({} bits)", c.x_class % 6, c.w_class % 10, (&b - &a).complete().significant_bits()), cj(json!(null)));
+        return rep.fail(ck, "honest-range-proof-rejected", format!("x class {} in an interval of width class {} ({} bits), commitment randomness {}", c.x_class % 6, c.w_class % 10, (&b - &a).complete().significant_bits(), r_tag), cj(json!(null)));
     }
     let pj = serde_json::to_value(&proof).unwrap();
     rep.eval(ck, 1);
@@ -363,7 +383,7 @@ pub fn run(ctx: &Ctx, rep: &Report) -> Meta {
     run_cases(ctx, rep, "generated", ctx.tier.pick(200, 1500), 40, || strat(le), |c| check_one(rep, "generated", c, &params));
     Meta {
         rule: "modulus and bases from commitment keys over issuer moduli, issuer (a_0, b) pairs and a commitment key over its own modulus; intervals [a, b] with a in {0, 1, 2^257+1, random} and b - a in {1, 2, 3, 2^k (k = 1..256), 2^256-1, random, 2^k-1, 2^k+1, s^2-1, s^2, s^2+1}; width-sweep: honest proofs at both ends of intervals of width 2^k-1, 2^k+1, s^2-1, s^2 and the squares of 2^ceil(k/2)-1 and 2^ceil(k/2) minus one for EVERY k in 2..=130 (quick) / 300 (thorough); \
-               x in {a, a+1, mid, b-1, b, random}; positive: verify(prove(x)) true and the proof survives JSON; negative: (i) the honest prover on a-1, b+1, a-2^k, b+2^k, b+width yields no accepted proof (a panic counts as no proof), \
+               x in {a, a+1, mid, b-1, b, random}; commitment randomness of about |n| bits (half of the cases), tiny, negative, a fraction k/16 of 2^40*n of either sign, +-(2^40*n - 1); positive: verify(prove(x)) true and the proof survives JSON; negative: (i) the honest prover on a-1, b+1, a-2^k, b+2^k, b+width yields no accepted proof (a panic counts as no proof), \
                (ii) other bounds / exchanged or squared bases / other modulus, (iii) integer leaves perturbed by +1, -1, := 0, := sibling, one high bit flipped, +2^k for k in {128, 160, 256, 300} (sampled in quick, all leaves in thorough), \
                (iv) transplant of the sub-proofs onto commitments to b+1, a far value, a random group element, the same value with other randomness, with and without overwriting the square proofs' E; \
                self-check: the harness' public recomputation reproduces the honest proof; non-trivial = outside the (interval, mid-range x) settings the crate uses itself; evaluations = verifier decisions"
